@@ -481,13 +481,19 @@ static void log_opt_values(cfg_opt_t *o)
 	fputs("]}", LOG);
 }
 
+static int dump_values_only;
+
 static void dump_opt(cfg_opt_t *o, int depth)
 {
 	unsigned i, n = cfg_opt_size(o);
 	fputs("{\"n\":", LOG);
 	jhex(cfg_opt_name(o));
-	fprintf(LOG, ",\"t\":\"%s\",\"f\":%d,\"c\":", tname(o->type), o->flags);
-	jhex(cfg_opt_getcomment(o));
+	if (dump_values_only) {
+		fprintf(LOG, ",\"t\":\"%s\"", tname(o->type));
+	} else {
+		fprintf(LOG, ",\"t\":\"%s\",\"f\":%d,\"c\":", tname(o->type), o->flags);
+		jhex(cfg_opt_getcomment(o));
+	}
 	if (o->simple_value.ptr) {
 		fputs(",\"sv\":", LOG);
 		log_one_value(o, 0, depth);
@@ -761,6 +767,22 @@ static void run_op(char **t, int nt)
 		fprintf(LOG, ",\"file\":");
 		jhex(loc_cfg->filename);
 		fprintf(LOG, ",\"line\":%d}\n", loc_cfg->line);
+		evflush();
+		return;
+	}
+	if (!strcmp(op, "vhash")) {
+		/* hash of the values-only dump (names, titles, values; no flags, no annotations) */
+		char *buf = NULL; size_t sz = 0, k; FILE *save = LOG, *ms; unsigned long h = 1469598103934665603ul;
+		NEED(2); LOC(1);
+		ms = open_memstream(&buf, &sz);
+		if (!ms) die("open_memstream");
+		LOG = ms; dump_values_only = 1;
+		dump_cfg(loc_cfg, 0);
+		dump_values_only = 0; LOG = save;
+		fclose(ms);
+		for (k = 0; k < sz; k++) { h ^= (unsigned char)buf[k]; h *= 1099511628211ul; }
+		free(buf);
+		fprintf(LOG, "{\"ev\":\"vhash\",\"h\":\"%016lx\"}\n", h);
 		evflush();
 		return;
 	}
